@@ -3462,12 +3462,13 @@ class NITFWritingDetails(object):
 
         if self._header_written and not overwrite:
             return
+        # NB: the complexity level must be set before the header is rendered
+        self.set_header_clevel()
         the_bytes = self.header.to_bytes()
         if len(the_bytes) != self._header_size:
             raise ValueError(
                 'The anticipated header length {}\n\t'
                 'does not match the actual header length {}'.format(self._header_size, len(the_bytes)))
-        self.set_header_clevel()
         file_object.seek(0, os.SEEK_SET)
         file_object.write(the_bytes)
         self._header_written = True
